@@ -14,7 +14,8 @@ EXPLANATION = ('Integer kernels: the wrap expression of parse_atomlist, the widt
                'translation is validated on every run by evaluating the real function and the z3 term on the same numbers.  '
                'String level: CrossHair executes the real parse_atomlist / parse_atomline / GroFile write-close-read on symbolic '
                'ints and short symbolic names under a time budget; "confirmed" and "no counterexample found" are reported separately.')
-BOUNDS = {'numbers': 'all integers in [0, 10^7] (kernels); CrossHair symbolic ints in the same range',
+BOUNDS = {'files': 'write-close-read of 3-record files: 7 number classes x 7, 5 name pairs, velocities on/off, count declared/deferred, 4 box kinds, decimals 1..6 (symbolic choice integers)',
+          'numbers': 'all integers in [0, 10^7] (kernels); CrossHair symbolic ints in the same range',
           'field width W': 'all W >= 6 (decimals >= 1) with and without velocities', 'names': '1..5 characters (CrossHair, bounded search)',
           'floats': 'fixed boundary set (x.xxx5 ties, negatives, width-filling values) - concrete'}
 OUTSIDE = ['half-unit rounding of symbolic floats (format / float are C code: CrossHair realises them)', 'files longer than 3 records in the CrossHair round trip']
@@ -27,6 +28,8 @@ CASE_TIMEOUT = {'quick': 400, 'thorough': 1500}
 def cases(tier):
     cs = [{'name': 'kernel/wrap'}, {'name': 'kernel/format-inference'}, {'name': 'kernel/offsets'}]
     t = 40 if tier == 'quick' else 240
+    for dec in (1, 2, 3, 4, 5, 6):
+        cs.append({'name': 'file-roundtrip/decimals%d' % dec, 'dec': dec})
     for fn in ('numbers_roundtrip', 'names_roundtrip', 'line_width_constant'):
         cs.append({'name': 'crosshair/' + fn, 'fn': fn, 'budget': t})
     return cs
@@ -168,12 +171,142 @@ def run_case(case):
         samples.append({'backfill_offset': str(off), 'seek_atom': str(off2)})
         return {'records': records, 'paths': 0, 'queries': 3, 'solver_s': 0, 'samples': samples, 'nontrivial': nontrivial}
 
+    if name.startswith('file-roundtrip'):
+        return _file_roundtrip(case)
     from symx.chrun import run_crosshair
     return run_crosshair('chx/c13.py', case['fn'], case['budget'], kind='c13')
 
 
+NUMS = [0, 1, 9999, 99999, 100000, 100001, 1234567]
+NAMES = [('A', 'B'), ('RESID', 'ATOM1'), ('r-5', '#x1'), ('W', 'O12'), ('LONGNAME', 'ATOMNAME9')]
+BOXES = [('vector', [3.0, 4.0, 5.0]), ('diagonal', [[2.5, 0, 0], [0, 3.25, 0], [0, 0, 10.0]]), ('triclinic', [[3.0, 0, 0], [0.5, 4.0, 0], [0.25, 0.75, 5.0]]),
+         ('tiny', [0.00001, 0.5, 123.45678])]
+
+
+def _floats(dec):
+    h = 0.5 * 10 ** (-dec)
+    big = 10 ** (4 - 1) - 1 + 0.25          # fills the integer part of the narrowest field (width = dec + 5 => 4 characters before the dot incl. sign)
+    return [0.0, 1.0 + h, -(1.0 + h), h / 2, -h / 2, 0.123456789, big, -(10 ** 2 + 0.5), 2.0 - h / 4]
+
+
+def _roundtrip_once(dec, ni, nj, name_i, vel, declare, box_i, recs_n=3):
+    """write with the real GroFile, read back with the real GroFile; -> list of problems"""
+    import os
+    import tempfile
+    import numpy as np
+    from gaddlemaps.parsers import GroFile
+    import warnings
+    W = dec + 5
+    fl = _floats(dec)
+    recs = []
+    for r in range(recs_n):
+        rec = [NUMS[(ni + r) % len(NUMS)], NAMES[name_i][0], NAMES[(name_i + r) % len(NAMES)][1], NUMS[(nj + 2 * r) % len(NUMS)],
+               fl[(3 * r) % len(fl)], fl[(3 * r + 1) % len(fl)], fl[(3 * r + 2) % len(fl)]]
+        if vel:
+            rec += [0.1 + r, -fl[(r + 4) % len(fl)] / 10, fl[(r + 5) % len(fl)] / 100]
+        recs.append(rec)
+    d = tempfile.mkdtemp(prefix='c13f-')
+    p = os.path.join(d, 'rt.gro')
+    problems = []
+    try:
+        with warnings.catch_warnings():
+            warnings.simplefilter('ignore')
+            f = GroFile(p, 'w')
+            if declare:
+                f.natoms = len(recs)
+            f.comment = 'Title with spaces, t= 1.0'
+            f.box_matrix = np.array(BOXES[box_i][1], dtype=float)
+            f.position_format = (W, dec)
+            for rec in recs:
+                f.writeline(list(rec))
+            f.close()
+        lines = open(p).read().split('\n')
+        atom_lines = lines[2:2 + len(recs)]
+        if len({len(l) for l in atom_lines}) != 1:
+            problems.append('atom lines of different lengths %s' % [len(l) for l in atom_lines])
+        elif len(atom_lines[0]) != 20 + 3 * W * (2 if vel else 1):
+            problems.append('atom line has %d characters, expected %d' % (len(atom_lines[0]), 20 + 3 * W * (2 if vel else 1)))
+        g = GroFile(p)
+        back = g.readlines()
+        if g.natoms != len(recs) or len(back) != len(recs):
+            problems.append('%d records written, natoms=%r, %d read' % (len(recs), g.natoms, len(back)))
+        if g.comment.rstrip('\n') != 'Title with spaces, t= 1.0':
+            problems.append('title read back as %r' % g.comment)
+        B = np.array(BOXES[box_i][1], dtype=float)
+        B = np.diag(B) if B.shape == (3,) else B
+        if np.abs(g.box_matrix - B).max() > 5e-6:
+            problems.append('box read back as %s' % g.box_matrix.tolist())
+        for rec, b in zip(recs, back):
+            if b[1] != rec[1][:5] or b[2] != rec[2][:5]:
+                problems.append('names %r %r read back as %r %r' % (rec[1], rec[2], b[1], b[2]))
+            for slot in (0, 3):
+                if rec[slot] <= 99999 and b[slot] != rec[slot]:
+                    problems.append('number %d read back as %d' % (rec[slot], b[slot]))
+                if not 0 <= b[slot] <= 99999:
+                    problems.append('number %d outside five columns' % b[slot])
+            if len(b) != len(rec):
+                problems.append('%d fields read, %d written' % (len(b), len(rec)))
+            for x, y in zip(rec[4:7], b[4:7]):
+                if abs(x - y) > 0.5 * 10 ** (-dec) * (1 + 1e-9) + 1e-12:
+                    problems.append('coordinate %r read back as %r with %d decimals' % (x, y, dec))
+            for x, y in zip(rec[7:], b[7:]):
+                if abs(x - y) > 0.5 * 10 ** (-dec - 1) * (1 + 1e-9) + 1e-12:
+                    problems.append('velocity %r read back as %r' % (x, y))
+        g.close()
+    except Exception as e:
+        problems.append('%s: %s' % (type(e).__name__, e))
+    finally:
+        try:
+            os.remove(p)
+        except OSError:
+            pass
+        os.rmdir(d)
+    return problems
+
+
+def _file_roundtrip(case):
+    """write-close-read of whole files through the real GroFile; the record contents (number classes, names, velocities,
+    declared/deferred count, box kind) are chosen by symbolic integers"""
+    from symx.core import explore, SymInt
+    dec = case['dec']
+    vs = {k: z3.Int(k) for k in ('ni', 'nj', 'name', 'vel', 'declare', 'box')}
+    rng = {'ni': len(NUMS), 'nj': len(NUMS), 'name': len(NAMES), 'vel': 2, 'declare': 2, 'box': len(BOXES)}
+    records, samples, nontrivial = [], [], []
+    bad, cover, paths = None, [], 0
+
+    def run(ctx):
+        ch = {}
+        for k in ('vel', 'declare', 'box', 'name', 'ni', 'nj'):
+            ctx.assume(z3.And(vs[k] >= 0, vs[k] < rng[k]))
+            ch[k] = SymInt(vs[k], 0, rng[k] - 1).concretize()
+        return ch
+    for ctx, ch, exc in explore(run, max_paths=20000):
+        paths += 1
+        cover.append(z3.And(*ctx.pc) if ctx.pc else z3.BoolVal(True))
+        problems = _roundtrip_once(dec, ch['ni'], ch['nj'], ch['name'], ch['vel'], ch['declare'], ch['box'])
+        if problems and bad is None:
+            bad = dict(ch, dec=dec, problems=problems[:3])
+        if len(samples) < 2:
+            samples.append(dict(ch, decimals=dec))
+    nontrivial.append('dec%d' % dec)
+    rec = {'name': 'decimals=%d: every explored file (%d) is read back with the same records, numbers, names, coordinates within half a unit of the last decimal, box, title; equal line lengths' % (dec, paths),
+           'status': 'unsat' if bad is None else 'sat', 'secs': 0}
+    if bad:
+        rec['witness'] = {'kind': 'file', **bad}
+    records.append(rec)
+    s = z3.Solver(); s.set('timeout', 60000)
+    s.add(*[z3.And(vs[k] >= 0, vs[k] < rng[k]) for k in vs]); s.add(z3.Not(z3.Or(*cover)))
+    r = str(s.check())
+    records.append({'name': 'decimals=%d: explored paths exhaust the symbolic choices' % dec, 'status': 'unsat' if r == 'unsat' else 'unknown', 'secs': 0})
+    return {'records': records, 'paths': paths, 'queries': 1, 'solver_s': 0, 'samples': samples, 'nontrivial': nontrivial}
+
+
 def replay(w):
     from gaddlemaps.parsers import GroFile
+    if w['kind'] == 'file':
+        problems = _roundtrip_once(w['dec'], w['ni'], w['nj'], w['name'], w['vel'], w['declare'], w['box'])
+        return {'reproduced': bool(problems), 'what': 'gro file write-read (decimals %d, %s box, velocities %s, count %s): %s' % (
+            w['dec'], BOXES[w['box']][0], bool(w['vel']), 'declared' if w['declare'] else 'deferred', '; '.join(problems)[:300]), 'detail': {}}
     if w['kind'] == 'wrap':
         n, slot = w['n'], w['slot']
         rec = [1, 'RES', 'AT', 1, 1.0, 2.0, 3.0]
